@@ -4,11 +4,12 @@ from __future__ import annotations
 import json
 import random
 
-from .. import core, kgen, sx
+from .. import core, kgen, sx, try_kdef
 
 THEOREMS = ['C20.scope_injective', 'C20.scope_stable', 'C20.chain_claims', 'C20.chain_links', 'C20.mismatch_refused',
             'C20.convert_subst', 'C20.kore_conversion_text_is_the_model', 'C20.rewrite_event_text_is_the_model',
-            'C20.trace_text_is_the_model', 'C20.text_chain']
+            'C20.trace_text_is_the_model', 'C20.text_chain', 'C20.kore_definition_text_is_the_model',
+            'C20.proof_hints_text_is_the_model', 'C20.k_pipeline_text_is_the_model', 'C20.modules_share_one_counter']
 
 
 def unhex(h):
@@ -155,14 +156,21 @@ def run(rep):
         if len(x[2][1]) > 100 and x[2][2]:
             findings.append({'key': 'id-collision', 'python': pa[-300:],
                              'what': 'a rule with more than 100 variables and a sort variable: the 101st variable and the first sort parameter both become MetaVar(100)'})
+    # ---- 5. the construction of the semantics and the hint stream: specification (Pi2/KDefSpec.lean) vs the check's own construction,
+    #         generated text (Pi2/Gen/PyKDef.lean) vs the real code (skipped when the second driver did not build)
+    kf, kcount = try_kdef.compare(worlds[: (8 if quick else 60)], rng)
+    findings += kf
+    rep.coverage.update({'kdef': kcount})
     rep.coverage.update({
-        'evaluations': len(conv_lines) + len(tl) + len(ml), 'distinct_nontrivial': len(set(conv_lines)) + len(set(tl)),
+        'evaluations': len(conv_lines) + len(tl) + len(ml) + sum(v for v in kcount.values() if isinstance(v, int)), 'distinct_nontrivial': len(set(conv_lines)) + len(set(tl)),
         'rule': 'random signatures (sorts, constants, n-ary functional constructors, a non-functional symbol, a cell, a parametric symbol, kseq), '
                 'rewrite rules over a program-counter configuration with variables and sort variables, ground substitutions, traces of length 0-5 '
                 '(matching; with deliberately wrong substitutions / rules; cycles revisiting a configuration; substitutions by domain values or '
                 'non-functional terms); REAL LanguageSemantics.from_kore_definition / get_proof_hints / ExecutionProofExp vs the Lean model (conversion '
                 'results, scopes, axioms, claims, current configuration, refusals); Kore-level oracle for acceptance and for every claim; serialised '
-                'modules (plain and --optimize) on the real checker with the publish journal',
+                'modules (plain and --optimize) on the real checker with the publish journal; Kore definitions with skipped / equational axioms, hooked sorts, other '
+                'sentences, broken declarations, two modules: sigOfDefinition vs the check\'s Sig and rules, generated from_kore_definition / get_proof_hints vs the real ones, hint '
+                'streams with non-rule events, unknown / skipped ordinals vs traceStepsR',
         'programs': len(tl), 'conversions_ok': n_conv_ok, 'traces_accepted': n_ok, 'traces_refused': n_refused, 'modules_checked': n_checked,
         'claims_checked': len(claim_checks), 'outcomes': {f'{k[0]}:{k[1]}': v for k, v in outcomes.items()},
         'disagreements_checked': len(findings),
